@@ -13,7 +13,7 @@ import (
 func init() {
 	register(&propDef{
 		id: "C08", level: "other", perCfg: false,
-		explain: "Only narrow necessary conditions of C08 are visible statically; they are decided on the generator's template by the lexical-context walk (E10) and AST rules. B1 tags carry the IDL names: every splice inside a struct tag is the raw TypeField.Name (not a derived form), between `json:\"` and the closing quote, and `,omitempty` is emitted exactly under `field.Type.Kind == TypeMaybe`. B2 every declaration whose value is (de)serialised is tagged: each `var in`/`var out` declaration and each `type X` declaration obtains its type from the type writer with the tagged flag true. B3 kind -> Go type table of the type writer: bool->bool, int->int64, float->float64, string/enum->string, object->json.RawMessage, array->[]T, map->map[string]T, optional->*T, alias->its name, struct->struct{...}, i.e. the varlink JSON mapping under encoding/json. B4 wire names are composed alike at all sibling sites: every method name inside a string literal is `<interface name>.<method name>` (arguments of Send, Upgrade, ReplyMethodNotImplemented) except the dispatcher's case label, which is the bare method name; every error name inside a string literal is `<interface name>.<error name>` (Error(), Dispatch_Error case, ReplyError). B5 dispatcher skeleton: every emitted `call.GetParameters(&in)` is followed in the same fragment by the error test replying InvalidParameter(\"parameters\"), the default arm replies MethodNotFound(methodname), the dummy implementations reply MethodNotImplemented, and the client stubs pass `flags` through to Send. B6 the standard replies are emitted on the library's varlink.Call (the dispatcher's parameter or the explicit embedded member), never on the generated wrapper type whose Reply<Error> methods can shadow them. B7 the library primitives the stubs delegate flag handling to decode each reply into a fresh value and map continues exactly.",
+		explain: "Only narrow necessary conditions of C08 are visible statically; they are decided on the generator's template by the lexical-context walk (E10) and AST rules. B1 tags carry the IDL names: every splice inside a struct tag is the raw TypeField.Name (not a derived form), between `json:\"` and the closing quote, and `,omitempty` is emitted exactly under `field.Type.Kind == TypeMaybe`. B2 every declaration whose value is (de)serialised is tagged: each `var in`/`var out` declaration and each `type X` declaration obtains its type from the type writer with the tagged flag true. B3 kind -> Go type table of the type writer: bool->bool, int->int64, float->float64, string/enum->string, object->json.RawMessage, array->[]T, map->map[string]T, optional->*T, alias->its name, struct->struct{...}, i.e. the varlink JSON mapping under encoding/json. B4 wire names are composed alike at all sibling sites: every method name inside a string literal is `<interface name>.<method name>` (arguments of Send, Upgrade, ReplyMethodNotImplemented) except the dispatcher's case label, which is the bare method name; every error name inside a string literal is `<interface name>.<error name>` (Error(), Dispatch_Error case, ReplyError). B5 dispatcher skeleton: every emitted `call.GetParameters(&in)` is followed in the same fragment by the error test replying InvalidParameter(\"parameters\"), the default arm replies MethodNotFound(methodname), the dummy implementations reply MethodNotImplemented, and the client stubs pass `flags` through to Send. B6 the standard replies are emitted on the library's varlink.Call (the dispatcher's parameter or the explicit embedded member), never on the generated wrapper type whose Reply<Error> methods can shadow them. B7 the library primitives the stubs delegate flag handling to decode each reply into a fresh value and map continues exactly. B10 the emitted receive functions declare the variable they decode a reply into inside the function literal (one fresh value per reply).",
 		notDec:  "Most of the property: which value reaches which parameter, decoding fidelity, the behaviour of the emitted stubs for all descriptions and values. They live in the emitted program; deciding them needs the generator's output for all descriptions (translation validation), which is a different technique.",
 		trusted: []string{"encoding/json maps Go types to JSON as documented (int64 <-> number, *T/omitempty <-> optional, map[string]T <-> object, RawMessage <-> any value)"},
 		run:     runC08,
@@ -23,6 +23,8 @@ func init() {
 func runC08(r *Run, p *Prog) {
 	// B8: oneway passes through the stubs unchanged only if every reply path of the library, including the standard error replies the generated dispatcher uses, is silent for a oneway call
 	siblingRules(r, p, "C01", []string{"R2"}, "B8")
+	// B11: the generated Reply<Error> helpers reach the client only if the library's error reply refuses nothing but names without interface part and the reserved interface
+	siblingRules(r, p, "C12", []string{"X1"}, "B11")
 	m, why := buildIDLModel(p)
 	if m == nil {
 		r.Unresolved("B1", why)
@@ -508,6 +510,38 @@ func runC08(r *Run, p *Prog) {
 		}
 		r.Stat("B9_client_mapping_requires_parameters", map[bool]int{false: 0, true: 1}[needs])
 		r.Floor("B9", 1)
+	})
+	// ---- B10: the emitted receive functions decode every reply into a value of their own: the declaration of the
+	// variable handed to receive(ctx, &v) lies inside the emitted function literal (after its `return func(`), so a
+	// `more` call's replies do not share state (encoding/json decodes into the existing value)
+	r.Guard("B10", func() {
+		re := regexp.MustCompile(`receive\(ctx, &(\w+)\)`)
+		lastClosure := -1
+		lastDecl := map[string]int{}
+		n := 0
+		for i, fr := range w.Frags {
+			if strings.Contains(fr.Text, "return func(") {
+				lastClosure = i
+			}
+			for _, m := range regexp.MustCompile(`var (\w+) `).FindAllStringSubmatch(fr.Text, -1) {
+				// (a declaration and the closure head in one fragment: order within the text)
+				if lastClosure == i && strings.Index(fr.Text, "var "+m[1]+" ") < strings.Index(fr.Text, "return func(") {
+					lastDecl[m[1]] = i - 1
+				} else {
+					lastDecl[m[1]] = i
+				}
+			}
+			for _, m := range re.FindAllStringSubmatch(fr.Text, -1) {
+				n++
+				d, declared := lastDecl[m[1]]
+				ok := declared && lastClosure >= 0 && d >= lastClosure
+				r.Ob("B10", fr.Fn, fmt.Sprintf("emitted receive function #%d decodes into a variable declared inside it (`&%s`)", n, m[1]), fr.Pos, ok,
+					"the variable the emitted receive function decodes into is declared outside the function literal: consecutive replies of a `more` call are decoded into the same value, and members absent from a later reply keep what an earlier one set")
+			}
+		}
+		if n == 0 {
+			r.Unresolved("B10", "emitted `receive(ctx, &<var>)` in the client stubs")
+		}
 	})
 	// ---- B7: the library primitives the stubs delegate flag handling to (re-evaluated from C03/C11): a fresh reply value
 	// per receive and the continues mapping
